@@ -139,8 +139,19 @@ func extraAttrs(c *core.Ctx, pub ed25519.PublicKey) integrityblock.SignatureAttr
 		v []byte
 	}
 	kvs := []kv{{integrityblock.Ed25519publicKeyAttributeName, []byte(pub)}}
+	used := map[string]bool{}
+	for _, n := range names {
+		used[n] = true
+	}
 	for i := 0; i < n; i++ {
-		kvs = append(kvs, kv{names[perm[i]], c.Bytes("attrs.val", 0, 30)})
+		name := names[perm[i]]
+		if c.Chance("attrs.dictName", 1, 6) {
+			if dn := c.PickDict("attrs.dict", nil, `^[A-Za-z][A-Za-z0-9]{1,30}$`, integrityblock.Ed25519publicKeyAttributeName); dn != "" && !used[dn] {
+				name = dn
+			}
+		}
+		used[name] = true
+		kvs = append(kvs, kv{name, c.Bytes("attrs.val", 0, 30)})
 	}
 	// drawn insertion order (plus insert/delete noise to vary the map's bucket layout)
 	m := integrityblock.SignatureAttributesMap{}
